@@ -59,13 +59,64 @@ def _collect(k, vis):
     return hidden, rows
 
 
+_REF = re.compile(r":ref:`CONFIG_(\w+)(?:<CONFIG_\w+>)?`")
+
+
+def _doc_cond_to_kconfig(text):
+    """turns a condition as rendered by gen_kconfig_doc back into Kconfig expression syntax"""
+    # one pass: option names may themselves start with CONFIG_ (e.g. CONFIG_FOR_CHIPA); strip the prefix only once
+    t = re.sub(r":ref:`CONFIG_(\w+)(?:<CONFIG_\w+>)?`|\bCONFIG_(\w+)", lambda m: m.group(1) or m.group(2), text)
+    t = re.sub(r"(\w+) is enabled", r"\1", t)
+    t = re.sub(r"(\w+) is disabled", r"!\1", t)
+    return t.strip()
+
+
+def _text_rows(text):
+    """rows of the generated text: [(kind, option, other option or None, condition text or None)]"""
+    rows = []
+    cur = None
+    section = None
+    lines = text.split("\n")
+    for i, line in enumerate(lines):
+        m = re.match(r"^\.\. _CONFIG_(\w+):$", line)
+        if m and not line.startswith(" "):
+            cur = m.group(1)
+            section = None
+            continue
+        if re.match(r"^\.\. _", line):
+            cur = None
+            continue
+        if cur is None:
+            continue
+        st = line.strip()
+        if st.endswith(":") and line.startswith("    ") and not line.startswith("     "):
+            section = st[:-1]
+            continue
+        if section == "Symbol can be set when" and st:
+            rows.append(("set_when", cur, None, st))
+            section = None
+        elif section in ("This symbol affects the value of following symbols", "Following symbols affect the value of this symbol") and st.startswith("- "):
+            body = st[2:]
+            cond = None
+            if " if " in body:
+                body, cond = body.split(" if ", 1)
+            m = re.match(r"(forcefully enables|forcefully enabled by|sets|set by) (\S+)", body)
+            if m:
+                other = _REF.sub(r"\1", m.group(2))
+                other = re.sub(r"^CONFIG_", "", other)
+                rows.append(({"forcefully enables": "selects", "forcefully enabled by": "selected_by", "sets": "sets", "set by": "set_by"}[m.group(1)], cur, other, cond))
+    return rows
+
+
 def docs(ctx, *args):
     tid, dom, slots, vals = decode_state(ctx, args)
     target = ctx["target"]
     k = ST.build(tid, env={"IDF_TARGET": target})
+    trows = []
     with notrace():
         vis = GD.ConfigTargetVisibility(k, target)
         hidden, rows = _collect(k, vis)
+        vis_nodes = {id(nd): vis.visible(nd) for nd in k.node_iter() if nd.prompt}
         if ctx.get("links", True):
             import os
 
@@ -81,6 +132,17 @@ def docs(ctx, *args):
                 else:
                     os.environ["IDF_TARGET"] = old
             text = fs.read("/m/docs.rst")
+            trows = []
+            for kind, name, other, cond in _text_rows(text):
+                # parse the rendered condition once, outside tracing (the text is concrete); evaluate it per path
+                e = None
+                if cond:
+                    k.filename = None
+                    k._tokens = k._tokenize("if " + _doc_cond_to_kconfig(cond))
+                    k._line = cond
+                    k._tokens_i = 1
+                    e = k._expect_expr_and_eol()
+                trows.append((kind, name, other, e))
             anchors = set(re.findall(r"^\s*\.\. _([^:]+):", text, re.M))
             for m in re.finditer(r":ref:`([^`]+)`", text):
                 tgt = m.group(1)
@@ -106,6 +168,32 @@ def docs(ctx, *args):
         if dep is not None and K.expr_value(dep) == 0:
             continue
         if (K.expr_value(shown) != 0) != (o != 0):
+            return False
+    # the conditions as they actually appear in the generated text (independent of how the writer computed them)
+    for kind, name, other, cond in trows:
+        sym = k.syms.get(name)
+        if sym is None or not sym.nodes:
+            continue
+        shown_v = K.expr_value(cond) if cond is not None else 2
+        if kind == "set_when":
+            nodes = [nd for nd in sym.nodes if nd.prompt and vis_nodes.get(id(nd))]
+            if len(nodes) != 1:
+                continue  # options documented from several definitions: each block shows its own condition
+            if (shown_v != 0) != (K.expr_value(nodes[0].prompt[1]) != 0):
+                return False
+            continue
+        src, tgt = (sym, k.syms.get(other)) if kind in ("selects", "sets") else (k.syms.get(other), sym)
+        if src is None or tgt is None:
+            continue
+        if K.expr_value(src.direct_dep) == 0:
+            continue  # the source's own dependencies are shown with the source
+        if kind in ("selects", "selected_by"):
+            conds = [c for t_, c in src.selects if t_ is tgt]
+        else:
+            conds = [c for t_, v_, c in src.sets if t_ is tgt]
+        if len(conds) != 1:
+            continue
+        if (shown_v != 0) != (K.expr_value(conds[0]) != 0):
             return False
     return True
 
